@@ -2,7 +2,7 @@
   Lungo.Proofs.ConcNamed — the positions recorded in `done` / `before` are the end positions of
   actual commit records (links the real-time bookkeeping to `commitLog`).  Generated mechanically.
 -/
-import Lungo.Proofs.ConcLogAll
+import Lungo.Proofs.ConcLog2
 namespace Lungo.Conc
 
 /-- `p = (tid, end position)` of some record of the commit log -/
@@ -324,22 +324,5 @@ theorem ninv_exp {s s' : State} {a : ActorId} {c : Choice} (bnd : Bnd s) (lv : L
       clear n0 n1 n2 n3
       (try log2_simp_at hr)
       (try log2_simp_at hp); grind [Named.mono, Named.last])
-
-theorem ninv_reachable {n : Nat} {s : State} (h : Reachable n s) : Ninv s := by
-  induction h with
-  | init => exact ninv_init n
-  | step hr hs ih =>
-    have bd := (inv_reachable hr).2.bnd
-    have lv := linv_reachable hr
-    rcases step_cases hs with ⟨hp, h'⟩ | h' | h' | h' | ⟨hp, h'⟩ | h' | h' | h' | h'
-    · exact ninv_idle bd lv ih hp h'
-    · exact ninv_begin bd lv ih h'
-    · exact ninv_commit bd lv ih h'
-    · exact ninv_abort bd lv ih h'
-    · exact ninv_after bd lv ih hp h'
-    · exact ninv_use bd lv ih h'
-    · exact ninv_sess bd lv ih h'
-    · exact ninv_close bd lv ih h'
-    · exact ninv_exp bd lv ih h'
 
 end Lungo.Conc
